@@ -83,7 +83,7 @@ class Profiles:
     _MACROS = {
         'hexcolor': r'#[0-9a-f]{3}|#[0-9a-f]{6}',
         'rgbcolor': r'rgb\({w}{int}{w}\,{w}{int}{w}\,{w}{int}{w}\)|rgb\({w}{num}%{w}\,{w}{num}%{w}\,{w}{num}%{w}\)',
-        'namedcolor': r'(transparent|orange|maroon|red|orange|yellow|olive|purple|fuchsia|white|lime|green|navy|blue|aqua|teal|black|silver|gray)',
+        'namedcolor': r'(transparent|maroon|red|orange|yellow|olive|purple|fuchsia|white|lime|green|navy|blue|aqua|teal|black|silver|gray)',
         'uicolor': r'(ActiveBorder|ActiveCaption|AppWorkspace|Background|ButtonFace|ButtonHighlight|ButtonShadow|ButtonText|CaptionText|GrayText|Highlight|HighlightText|InactiveBorder|InactiveCaption|InactiveCaptionText|InfoBackground|InfoText|Menu|MenuText|Scrollbar|ThreeDDarkShadow|ThreeDFace|ThreeDHighlight|ThreeDLightShadow|ThreeDShadow|Window|WindowFrame|WindowText)',
         'color': r'{namedcolor}|{hexcolor}|{rgbcolor}|{uicolor}',
         # 'color': r'(maroon|red|orange|yellow|olive|purple|fuchsia|white|lime|green|navy|blue|aqua|teal|black|silver|gray|ActiveBorder|ActiveCaption|AppWorkspace|Background|ButtonFace|ButtonHighlight|ButtonShadow|ButtonText|CaptionText|GrayText|Highlight|HighlightText|InactiveBorder|InactiveCaption|InactiveCaptionText|InfoBackground|InfoText|Menu|MenuText|Scrollbar|ThreeDDarkShadow|ThreeDFace|ThreeDHighlight|ThreeDLightShadow|ThreeDShadow|Window|WindowFrame|WindowText)|#[0-9a-f]{3}|#[0-9a-f]{6}|rgb\({w}{int}{w},{w}{int}{w},{w}{int}{w}\)|rgb\({w}{num}%{w},{w}{num}%{w},{w}{num}%{w}\)',
@@ -501,9 +501,14 @@ macros[Profiles.CSS_LEVEL_2] = {
     'specific-voice': r'{ident}',
     'generic-voice': r'male|female|child',
     'content': r'{string}|{uri}|{counter}|attr\({w}{ident}{w}\)|open-quote|close-quote|no-open-quote|no-close-quote',
-    'background-attrs': r'{background-color}|{background-image}|{background-repeat}|{background-attachment}|{background-position}',
-    'list-attrs': r'{list-style-type}|{list-style-position}|{list-style-image}',
-    'font-attrs': r'{font-style}|{font-variant}|{font-weight}',
+    # the parts of the shorthands name every keyword once and a position is
+    # taken word by word: a repeated keyword can be matched in one way only
+    # ("inherit" is part of {color} as the CSS3 color module defines it)
+    'background-attrs': r'{color}|{uri}|none|repeat-x|repeat-y|no-repeat|repeat|scroll|fixed|{percentage}|{length}|left|center|right|top|bottom',
+    'list-attrs': r'{list-style-type}|inside|outside|{uri}',
+    # the union of {font-style}, {font-variant} and {font-weight} with every
+    # keyword named once (a repeated 'normal' is matched in one way only)
+    'font-attrs': r'normal|inherit|italic|oblique|small-caps|bold|bolder|lighter|[1-9]00',
     'text-attrs': r'underline|overline|line-through|blink',
     'overflow': r'visible|hidden|scroll|auto|inherit',
 }
@@ -685,8 +690,9 @@ properties[Profiles.CSS3_BOX] = {
 
 # CSS Color Module Level 3
 macros[Profiles.CSS3_COLOR] = {
-    # orange and transparent in CSS 2.1
-    'namedcolor': r'(currentcolor|transparent|aqua|black|blue|fuchsia|gray|green|lime|maroon|navy|olive|orange|purple|red|silver|teal|white|yellow)',
+    # orange and transparent in CSS 2.1; the colour names of CSS 2.1 are part
+    # of {x11color}: {color} matches every keyword in one way only
+    'namedcolor': r'(currentcolor|transparent)',
     # orange?
     'rgbacolor': r'rgba\({w}{int}{w}\,{w}{int}{w}\,{w}{int}{w}\,{w}{num}{w}\)|rgba\({w}{num}%{w}\,{w}{num}%{w}\,{w}{num}%{w}\,{w}{num}{w}\)',
     'hslcolor': r'hsl\({w}{int}{w}\,{w}{num}%{w}\,{w}{num}%{w}\)|hsla\({w}{int}{w}\,{w}{num}%{w}\,{w}{num}%{w}\,{w}{num}{w}\)',
